@@ -33,10 +33,10 @@ from harness import common
 from harness.common import Failure, lean_run
 
 PROP_MODULES = ["ArmiVerif.Props.C09"]
-PARTIAL = ("double->single rounding of rwFloat and the text<->double conversion of ASCII reals are parameters (bit "
-           "patterns are opaque in the model; the ASCII real *writer* is modelled exactly and compared byte for byte; the "
-           "ASCII real reader enters the ASCII theorems only through the hypothesis float(format(x,'+.16E')) == x, "
-           "which every run discharges by measurement on the host Python); every format's readWrite() has a record "
+PARTIAL = ("double->single rounding of rwFloat is a parameter (bit patterns are opaque in the binary model); the ASCII "
+           "real writer AND reader are modelled exactly (format .16E, correctly rounded float()) and compared with the "
+           "host Python; 'float(format(x)) == x' is not proved for all doubles - it is a conjunct of the decidable "
+           "domain predicate asciiRealM.ok, evaluated per value; every format's readWrite() has a record "
            "schema in the model (Schema.* in Model/Cccc.lean: which records exist, their fields, every count and loop "
            "bound as a function of the header values) whose file is compared byte for byte with the real writer's on "
            "every container; that the real READER follows the same schema is what the reader-trace == writer-trace "
@@ -49,9 +49,12 @@ PARTIAL = ("double->single rounding of rwFloat and the text<->double conversion 
            "COMPXS without file-wide chi / delayed families (findings compxs-2d-record-*), LABELS without "
            "control-rod/burn-up records and RTFLUX NDIM >= 2 (NotImplemented in armi)")
 ASSUMPTIONS = [
-    "FloatParseSpec (hypothesis of file_roundtrip_ascii_partial): float(' {:+.16E}'.format(x)) == x for every finite "
-    "double; discharged by measurement on every run (coverage.ascii_real_hypothesis)",
-    "IEEE bit patterns: struct.pack('f'/'d') and float()/format(.16E) of the host Python are parameters of the model",
+    "none for the full ASCII theorems (file_roundtrip_ascii, schema_roundtrip_ascii): format(x, '+.16E') and float(text) "
+    "are both modelled (asciiRealField, parseFloatText) and compared with the host Python on every run; that a given "
+    "real reads back is part of the decidable domain predicate asciiRealM.ok, evaluated by the driver for the values "
+    "the real writer produced. The older *_partial theorems keep the hypothesis FloatParseSpec (measured: "
+    "coverage.ascii_real_hypothesis)",
+    "IEEE bit patterns: struct.pack('f'/'d') of the host Python is a parameter of the model (double -> single rounding)",
     "little-endian host (struct native byte order), as on every platform armi supports",
     "text-mode file objects deliver the characters written (newline translation is the identity on this host)",
 ]
@@ -509,8 +512,8 @@ def run_record_sequences(ctx):
         if m != raw:
             ctx.disagree("Cccc.File.write vs real record writer", case, None if m is None else m.hex()[:400], raw.hex()[:400])
         fields = trw.records()[0][0]
-        if asc and any(f[0] in ("f", "d") for f in fields):
-            continue
+        if asc and (not in_model_domain(trw, asc) or (len(fields) > ctx.pick(64, 10 ** 6) and any(f[0] in ("f", "d") for f in fields))):
+            continue  # (decoding thousands of real fields of one record through the model's float() is left to the thorough tier)
         kinds = ",".join(f[0] if f[0] != "s" else f"s{f[1]}" for f in fields) or "-"
         dec_req.append(("deca " if asc else "decb ") + kinds + " " + hexs(raw))
         vals = ",".join(("s" + hexs(f[2].encode())) if f[0] == "s" else str(f[1]) for f in fields)
@@ -1709,7 +1712,7 @@ def roundtrip_case(ctx, fmt, data, asc, workdir, tag, case, jobs, origin="genera
                  "writing what was read reproduces the file byte for byte", case, observed=_first_byte_diff(b2, b1))
     # second generation: the cycle started from a container the READER built (its own array types, sparse forms,
     # defaults): write (done: p2) -> read -> equal data -> write -> identical bytes
-    if b2 is not None and not cause:
+    if b2 is not None and not cause and origin != "fixture":  # (a fixture's container already comes from the reader)
         p3 = os.path.join(workdir, tag + ".3")
         B2 = canon(data2)
         with common.quiet():
@@ -1769,6 +1772,8 @@ def trace_wf(trw, asc):
         elif k in ("f", "d") and asc:
             x = frombits64(e[1])
             if x != x or x in (float("inf"), float("-inf")) or len(" {:+.16E}".format(x)) != 24:
+                return False
+            if dbits(float(" {:+.16E}".format(x))) != e[1]:  # asciiRealM.ok: the text converts back to the value
                 return False
         elif k == "s":
             if len(e[2].encode("utf-8")) > e[1] or e[2] != e[2].rstrip() or any(ord(c) > 127 for c in e[2]):
@@ -1888,7 +1893,7 @@ def run_formats(ctx, workdir):
 def run_fixtures(ctx, workdir):
     only = os.environ.get("C09_ONLY")
     jobs = []
-    limit = ctx.pick(250_000, 10 ** 9)  # bytes of a file replayed through the Lean encoder in this tier
+    limit = ctx.pick(150_000, 10 ** 9)  # bytes of a file replayed through the Lean encoder in this tier
     for fmt in formats():
         if fmt.fixture is None or (only and fmt.name not in only.split(",")):
             continue
@@ -2071,6 +2076,44 @@ def run_announced_records(ctx, workdir):
         if obs is not None:
             ctx.fail("nhflux-several-data-sets", "a file holding two whole-core data sets gives the first when one set is "
                      "read and the second when two are stepped through", {"stream": clsname}, observed=obs)
+    # adjoint files hold the container's groups in reverse: ATFLUX(d) is byte for byte RTFLUX(d with the group axis
+    # reversed), NAFLUX likewise; the order itself vs Cccc.adjointOrder
+    from armi.nuclearDataIO.cccc import rtflux
+
+    for fwd, adj, gen, attrs, axis in ((rtflux.RtfluxStream, rtflux.AtfluxStream, gen_rtflux, ("groupFluxes",), {"groupFluxes": 3}),
+                                       (nhflux.NhfluxStream, nhflux.NafluxStream, gen_nhflux,
+                                        ("fluxMomentsAll", "partialCurrentsHexAll", "partialCurrentsHex_extAll", "partialCurrentsZAll"),
+                                        {"fluxMomentsAll": 3, "partialCurrentsHexAll": 3, "partialCurrentsHex_extAll": 2,
+                                         "partialCurrentsZAll": 3})):
+        for _t in range(3):
+            d = gen(rng, False, 0)
+            drev = copy.deepcopy(d)
+            for a in attrs:
+                v = getattr(drev, a)
+                if isinstance(v, np.ndarray) and v.size:
+                    setattr(drev, a, np.flip(v, axis=axis[a]).copy())
+            p1_, p2_ = os.path.join(workdir, "adj-a"), os.path.join(workdir, "adj-f")
+            with common.quiet():
+                try:
+                    adj.writeBinary(d, p1_)
+                    fwd.writeBinary(drev, p2_)
+                    same = open(p1_, "rb").read() == open(p2_, "rb").read()
+                    obs = None if same else "bytes differ"
+                except Exception as e:  # noqa
+                    obs = repr(e)[:200]
+            ctx.count("announced-record probes")
+            if obs is not None:
+                ctx.fail("adjoint-group-order", "an adjoint file is the forward file of the container with its group axis "
+                         "reversed", {"stream": adj.__name__}, observed=obs)
+    ngs = [rng.randint(0, 9) for _ in range(6)]
+    got = lean_run("Cccc", ["adjo [" + ",".join(str(10 * (i + 1)) for i in range(n_)) + "]" for n_ in ngs])
+    if not _NO_MODEL:
+        at = rtflux.AtfluxStream(rtflux.RtfluxData(), "unused", "rb")
+        for n_, g_ in zip(ngs, got):
+            at._metadata["NGROUP"] = n_
+            want = "[" + ",".join(str(10 * (at.getEnergyGroupIndex(g) + 1)) for g in range(n_)) + "]"
+            if g_ != want:
+                ctx.disagree("Cccc.adjointOrder vs AtfluxStream.getEnergyGroupIndex", {"ngroup": n_}, g_, want)
     # PMATRX nuclides with three or more production-matrix orders (heading maxScatteringOrder >= 3)
     for M in (3, 4):
         lib = gen_pmatrx(rng, False, 2, max_order=M)
@@ -2221,6 +2264,15 @@ def run_band(ctx, workdir):
                         ctx.count("band rows with up-scatter (JJ > 1)")
                 if k != len(fields):
                     ctx.fail("isotxs-7d-record-length", "a 7D record holds sum(JBAND) values", case, observed=[k, len(fields)])
+                # the whole block: record == scatFlatten, matrix read back == scatUnflatten (values are position codes)
+                jups = [g + nmd["jj"][g, n] for g in range(ng)]
+                jbs = [nmd["jband"][g, n] for g in range(ng)]
+                req.append(f"scat {ng} [" + ",".join(map(str, jups)) + "] [" + ",".join(map(str, jbs)) + "]")
+                flat = [int(round(frombits32(b) * 4)) for b in fields]
+                rows = [[int(round(x * 4)) for x in r] for r in (got.tolist() if got is not None else [[0] * ng] * ng)]
+                impl.append("[" + ",".join(map(str, flat)) + "];[" + ",".join(
+                    "[" + ",".join(map(str, r)) + "]" for r in rows) + "]")
+                cases.append(dict(case, block=n, whole_block=True))
     model = lean_run("Cccc", req)
     ctx.compare("Cccc.bandWrite/bandCols vs isotxs._rw7DRecord", cases, model, impl)
     ctx.evaluations += len(req)
@@ -2313,7 +2365,7 @@ def run_float_hypothesis(ctx):
 
     from armi.nuclearDataIO.cccc import cccc
 
-    N = ctx.pick(4000, 60000)
+    N = ctx.pick(3000, 60000)
     pats = [0, 1 << 63, 1, 2, (1 << 52) - 1, 1 << 52, (1 << 52) + 1, 0x7FEFFFFFFFFFFFFF, 0xFFEFFFFFFFFFFFFF,
             0x7FE0000000000000, dbits(1e22), dbits(1e23), dbits(9.999999999999999e22), dbits(5e-324), dbits(2.2250738585072014e-308),
             dbits(2.225073858507201e-308), dbits(0.1), dbits(1 / 3), dbits(1e100), dbits(1e-100), dbits(9.999999999999998e99)]
@@ -2347,8 +2399,19 @@ def run_float_hypothesis(ctx):
         threedig += len(text) != 24
         req.append(f"afloat {n}"); impl.append(text.encode().hex()); cases.append(("afloat", n, text))
         # the accepted domain of the ASCII real field (asciiReal.ok, decidable) vs "the text is _floatLength wide"
-        req.append(f"adom d {n}"); impl.append("T" if len(text) == 24 else "F")
+        req.append(f"adom d {n}"); impl.append("T" if len(text) == 24 and dbits(back) == n else "F")
         cases.append(("adom-real", n, text))
+        # Python's float() vs the model's parseFloatText: on the text the writer produces, and on the same value
+        # printed with other digit counts / exponent letters / without exponent (correct rounding of any decimal)
+        req.append("aparse " + text.encode().hex()); impl.append(str(dbits(back))); cases.append(("aparse", text))
+        if len(cases) % 7 == 0:
+            alt = ctx.rng.choice([" {:+.{p}E}", "{:.{p}e} ", "{:.{p}E}"]).format(x, p=ctx.rng.randint(0, 25))
+            if 1e-5 < abs(x) < 1e15 and ctx.rng.random() < 0.5:
+                alt = "{:.{p}f}".format(x, p=ctx.rng.randint(0, 12))
+            v_ = float(alt)
+            req.append("aparse " + alt.encode().hex())
+            impl.append("reject" if v_ in (float("inf"), float("-inf")) else str(dbits(v_)))
+            cases.append(("aparse", alt))
         if len(text) == 24 and infield < 600:
             infield += 1
             buf = io.StringIO()
@@ -2363,8 +2426,17 @@ def run_float_hypothesis(ctx):
                 ctx.fail("ascii-float-roundtrip", "doubles with 2-digit exponents read back exactly from the ASCII format",
                          {"bits": n, "x": repr(x)}, observed=[repr(g) for g in got])
         ctx.case(("afloat", n), nontrivial=True)
+    for bad in ("abc", "", ".", "E5", "+.E1", "--1.0", "1.0E+-1", "1..0", "1.5E", " +1.5E+ 2", "1.0E400", "9.0E-400",
+                "2.4703282292062327E-324", "2.4703282292062328E-324", "1.7976931348623158E+308", "1.7976931348623159E308"):
+        try:
+            v_ = float(bad)
+            exp = "reject" if v_ in (float("inf"), float("-inf")) else str(dbits(v_))
+        except ValueError:
+            exp = "reject"
+        req.append("aparse " + (bad.encode().hex() or "-")); impl.append(exp); cases.append(("aparse", bad))
     model = lean_run("Cccc", req)
-    ctx.compare("Cccc.asciiRealField vs Python format(x, '+.16E')", cases, model, impl)
+    ctx.compare("Cccc.asciiRealField / parseFloatText / asciiRealM.ok vs Python format(x, '+.16E') / float(text)", cases,
+                model, impl)
     ctx.evaluations += len(req)
     ctx.extra["ascii_real_hypothesis"] = {
         "statement": "FloatParseSpec: float(' {:+.16E}'.format(x)) == x (identical bit pattern) for every finite double x",
